@@ -1,16 +1,15 @@
 CONSTANTS
   Descs <- AllDescs
-  InitDescs <- Init10
+  InitDescs <- Init09
   InitFS <- FS0
-  Editable = {"a"}
-  Deletable = {"m", "o1"}
-  Targets <- NodeTargets
+  Editable = {"a", "o1"}
+  Deletable = {"o1"}
+  Targets <- TargetKeys
   MaxSteps = 6
   MaxBuilds = 3
-  MaxEdits = 3
-  MaxSwitch = 0
-  WithDB = {TRUE}
-  SkipSets <- Skip10
+  MaxEdits = 2
+  MaxSwitch = 2
+  WithDB = {TRUE, FALSE}
 INIT MCInit
 NEXT MCNext
 INVARIANT OutputsClean
